@@ -28,16 +28,21 @@ def standins(tier, seed):
     import itertools
     cfgs = []
     if tier == 'quick':
-        sigs = [(1, 0, 0), (0, 1, 0), (2, 0, 0), (1, 1, 0), (2, 0, 1), (3, 0, 0), (1, 1, 1), (3, 0, 1), (2, 2, 0), (4, 1, 0), (6, 0, 0)]
+        sigs = [(1, 0, 0), (0, 1, 0), (2, 0, 0), (1, 1, 0), (2, 0, 1), (3, 0, 0), (1, 1, 1), (3, 0, 1), (2, 2, 0), (4, 1, 0), (5, 0, 0), (3, 0, 2), (6, 0, 0)]
         n = 6
     else:
         sigs = [(p, q, r) for p in range(5) for q in range(5) for r in range(3) if 1 <= p + q + r <= 4] + [(4, 1, 0), (3, 1, 1), (5, 0, 0), (3, 2, 0), (6, 0, 0), (4, 2, 0), (7, 0, 0)]
         n = 25
     for p, q, r in sigs:
         d = p + q + r
-        cfgs.append(dict(p=p, q=q, r=r, random=n if d <= 4 else max(2, n // 6), pad=True, det_dmax=4))
+        cfgs.append(dict(p=p, q=q, r=r, random=n if d <= 4 else (max(4, n // 2) if d == 5 else max(2, n // 6)), pad=True, det_dmax=4))
     chunks = [cfgs[i::10] for i in range(10)]
     jobs = [{'name': f'inverse#{i}', 'bound': f'{n} seeded operands per signature (fewer for d>=5) incl. permuted and zero-padded; x*inv(x), inv(x)*x, a/b, number/x; determinant oracle d<=4',
              'job': {'kind': 'inverse', 'module': 'standins.jobs5', 'configs': ch, 'seed': seed * 10 + i}} for i, ch in enumerate(chunks) if ch]
+    per = 25 if tier == 'quick' else 200
+    symcfgs = [dict(p=1), dict(p=2), dict(p=1, q=1), dict(p=2, q=0, r=1), dict(p=3), dict(p=3, q=0, r=1), dict(p=2, q=2), dict(p=5), dict(p=4, q=1), dict(p=3, q=0, r=2)]
+    for i, c in enumerate(symcfgs):
+        jobs.append({'name': f'inverse-symbolic#{i}', 'bound': f'ordered key patterns of 1-3 blades (all when <= {per} per size, else {per} sampled) per signature d<=5: x*num == num*x == denom as polynomial identities (all coefficient values)',
+                     'job': {'kind': 'inverse_symbolic', 'module': 'standins.jobs7', 'configs': [dict(c, per_size=per, sizes=[1, 2, 3] + ([4] if tier != 'quick' else []))], 'seed': seed + i}})
     jobs.append({'name': 'powers', 'bound': 'exponents 1..40 and ranges (1..n), n<=16, polynomial operand', 'job': {'kind': 'powers', 'module': 'standins.jobs5', 'limit': 40}})
     return jobs
